@@ -50,7 +50,8 @@ def gen(rng):
                     k = rng.choice([len(subs), len(subs), len(subs) - 1, 1])
                     sv = []
                     for (sn, sd) in subs[:k]:
-                        sv.append(["x"] if sd is hc.NESTED else rng.choice(["", str(rng.randint(1, 4000))]))
+                        # (0 is a CAN identifier like any other)
+                        sv.append(["x"] if sd is hc.NESTED else rng.choice(["", str(rng.randint(1, 4000)), "0"]))
                     cps.append(dict(subset=sub, name=n, proto=proto, value=None, sub=sv, tag=tag))
         L["cps"] = cps
     return layers
@@ -74,6 +75,9 @@ def emit(layers):
                     (f"<COMPLEX-VALUE><SIMPLE-VALUE>{x[0]}</SIMPLE-VALUE></COMPLEX-VALUE>" if isinstance(x, list)
                      else f"<SIMPLE-VALUE>{x}</SIMPLE-VALUE>") for x in c["sub"]) + "</COMPLEX-VALUE>"
             pr = "" if c["proto"] is None else f'<PROTOCOL-SNREF SHORT-NAME="L{c["proto"]}"/>'
+            if c["tag"] % 3 == 0:
+                # restricted to a protocol stack as well (which is a restriction of its own and changes nothing else)
+                pr = '<PROT-STACK-SNREF SHORT-NAME="ps"/>' + pr
             sub = c.get("subset", "CPSUB")
             refs += (f'<COMPARAM-REF ID-REF="{sub}.{c["name"]}" DOCREF="{sub}" DOCTYPE="COMPARAM-SUBSET">{val}'
                      f'<DESC><p>{c["tag"]}</p></DESC>{pr}</COMPARAM-REF>')
@@ -302,6 +306,17 @@ def main(argv=None):
                     if e7 is None and got_fd != want_fd:
                         bad = f"L{i}.uses_can_fd(protocol={pn}) = {got_fd}, the parameters of that protocol say {want_fd}"
                         break
+                    got_can, e9, _ = cc.guarded(lambda: dl.uses_can(protocol=pn))
+                    if e9 is None and got_can != (rx is not None):
+                        bad = f"L{i}.uses_can(protocol={pn}) = {got_can} although the CAN receive id of that protocol is {rx}"
+                        break
+                    if fdp is None:
+                        got_sz, e10, _ = cc.guarded(lambda: dl.get_max_can_payload_size(protocol=pn))
+                        want_sz = 8 if rx is not None else None
+                        if e10 is not None or got_sz != want_sz:
+                            bad = (f"L{i}.get_max_can_payload_size(protocol={pn}) = {got_sz if e10 is None else type(e10).__name__}; "
+                                   f"no CP_CANFDTxMaxDataLength is defined and the CAN receive id is {rx}, so it is {want_sz}")
+                            break
                     brp = dl.get_comparam("CP_CANFDBaudrate", protocol=pn)
                     if want_fd and brp is not None:
                         wb = int(brp.get_value())
